@@ -10,6 +10,9 @@ import (
 func runCounter(sc Scenario, tr *Trace, seed int64) {
 	freeze()
 	tick := time.Duration(numOr(sc.Cfg, "tick_ms", 500)) * time.Millisecond
+	if ns := numOr(sc.Cfg, "tick_ns", 0); ns > 0 {
+		tick = time.Duration(ns)
+	}
 	n, r := num(sc.Cfg, "n"), num(sc.Cfg, "r")
 	res := time.Duration(r) * tick
 	a, err := memmetrics.NewCounter(n, res)
@@ -24,6 +27,7 @@ func runCounter(sc Scenario, tr *Trace, seed int64) {
 	// offset of the frozen origin inside a resolution step (Time.Truncate works from the zero time)
 	off := int(T0.Sub(T0.Truncate(res)) / tick)
 	tr.Emit(M{"e": "Reset", "scn": sc.ID, "cfg": M{"n": n, "r": r, "tps": int(time.Second / tick), "off": off}})
+	_ = off
 	for _, st := range sc.Steps {
 		switch str(st, "op") {
 		case "adv":
